@@ -4,6 +4,8 @@ pub mod linearizer;
 pub mod standard_linear_model;
 pub mod standardizer;
 
+#[cfg(feature = "rooc_verif")]
+pub use bounds::verif_hooks;
 pub use linear_model::*;
 pub use linearizer::*;
 pub use standard_linear_model::*;
